@@ -145,6 +145,17 @@ theorem runs_closes_source_once (same : α → α → Bool) (take : Option Nat) 
 example : ((first src).close (afterS (first src) [true, true, false, true] ⟨Src.of [Ev.item 1, .item 2, .item 3], 1⟩)).inner.closes = 1 := by
   decide
 
+/-- **`WithPeek` used through `Peek` *and* `Next`**, in any order, under any contexts, over any fault script,
+then `Close`: the source has been closed exactly once and not pulled afterwards (`withPeek_closes_source_once`
+is the `Next`-only case). -/
+theorem peek_interleave_closes_once {α : Type} (s0 : Src α) (h0 : s0.closes = 0) (ops : List SPeekOp) :
+    (peekClose src (speekRun src ops ⟨s0, none⟩).2).inner.closes = 1 ∧
+    (peekClose src (speekRun src ops ⟨s0, none⟩).2).inner.after = s0.after :=
+  Juniper.Proofs.StreamDen.peek_interleave_closes_once s0 h0 ops
+
+example : (peekClose src (speekRun src [.peek true, .peek false, .next true, .peek true]
+    ⟨Src.of [Ev.item 1, .transient 3, .item 2], none⟩).2).inner.closes = 1 := by decide
+
 /-! ### pipelines of arbitrary depth: the source's ghost call log -/
 
 section pipelines
@@ -245,6 +256,13 @@ theorem flatten_scripted_closed_once (so : Src (Src α)) (h0 : so.closes = 0) (h
     let st' := (flatten src src).close (afterS (flatten src src) cs ⟨so, none, []⟩)
     st'.outer.closes = 1 ∧ st'.outer.after = so.after ∧ ∀ x ∈ st'.finished ++ st'.curr.toList, Closed1 x :=
   Juniper.Proofs.StreamDen.flatten_scripted_closed_once so h0 hfr cs
+
+/-- … and none of the inner streams the outer stream handed out is missing from the lists that statement
+ranges over: their number is the number of items pulled from the outer stream (any inner machine). -/
+theorem flatten_none_lost {τ : Type w} (mi : SM τ β) (so : Src τ) (h0 : so.pulled = 0) (cs : List Bool) :
+    let st' := (flatten src mi).close (afterS (flatten src mi) cs ⟨so, none, []⟩)
+    (st'.finished ++ st'.curr.toList).length = st'.outer.pulled :=
+  Juniper.Proofs.StreamDen.flatten_none_lost mi so h0 cs
 
 /-- non-vacuity: inner stream 1 ends (closed when it ended), the outer stream then fails transiently,
 inner stream 2 is abandoned after one item (closed by `Close`), the outer stream is closed once -/
